@@ -5,6 +5,8 @@ package main
 // and OCSP answer.
 
 import (
+	"crypto/x509/pkix"
+	"encoding/asn1"
 	"fmt"
 	"math/big"
 	"math/rand"
@@ -18,16 +20,19 @@ import (
 func init() { commands["c01"] = runC01 }
 
 type c01Case struct {
-	Source   string `json:"source"`   // cdp | crl_urls | crl_files
-	Encoding string `json:"encoding"` // der | pemlf | pemcrlf
-	N        int    `json:"entries"`
-	Width    int    `json:"serial_bytes"`
-	EntryExt bool   `json:"entry_extensions"`
-	V1       bool   `json:"v1"`
-	Storage  string `json:"storage"`
-	Mode     string `json:"mode"`
-	OCSP     string `json:"ocsp"`    // none | good | unavailable
-	OwnCDP   string `json:"own_cdp"` // configured sources: the certificate's own CDP: none | ldap | down | other (an empty list elsewhere)
+	Source    string `json:"source"`   // cdp | crl_urls | crl_files
+	Encoding  string `json:"encoding"` // der | pemlf | pemcrlf
+	N         int    `json:"entries"`
+	Width     int    `json:"serial_bytes"`
+	EntryExt  bool   `json:"entry_extensions"`
+	V1        bool   `json:"v1"`
+	Storage   string `json:"storage"`
+	Mode      string `json:"mode"`
+	OCSP      string `json:"ocsp"` // none | good | unavailable
+	Issuer    string `json:"issuer_name_shape,omitempty"`
+	Fetch     string `json:"fetch_mode,omitempty"`
+	Immediate string `json:"first_handshake_right_after_provision,omitempty"` // configured sources, fetch_background: verdict for a listed certificate presented the moment Provision returns
+	OwnCDP    string `json:"own_cdp"`                                         // configured sources: the certificate's own CDP: none | ldap | down | other (an empty list elsewhere)
 	// observations
 	Positions []int    `json:"positions"`
 	Verdicts  []string `json:"verdicts"`
@@ -63,6 +68,13 @@ func runC01(c *Ctx) {
 			}
 		}
 	}
+	// issuer names that a decode / re-encode round trip does not preserve: attribute order other than C,O,CN, domain
+	// components, e-mail address, a multi-valued RDN, a teletex string
+	for si, shape := range []string{"cn-o-c", "dc-dc-cn", "email", "multi-valued", "t61"} {
+		for _, st := range []string{"memory", "disk"} {
+			cases = append(cases, &c01Case{Source: []string{"cdp", "crl_files"}[si%2], Encoding: "der", N: 3, Width: 8, Storage: st, Mode: "crl_only", OCSP: "none", Issuer: shape})
+		}
+	}
 	// serial widths 1..20 explicitly (CDP, DER, 3 entries)
 	for w := 1; w <= 20; w++ {
 		cases = append(cases, &c01Case{Source: "cdp", Encoding: "der", N: 3, Width: w, Storage: []string{"memory", "disk"}[w%2], Mode: modes[w%4], OCSP: "none", EntryExt: w%3 == 0})
@@ -96,13 +108,16 @@ func runC01(c *Ctx) {
 			c.Fail("", "control: an unlisted certificate was not accepted under strict (list not in force?): "+cs.Control, cs)
 			continue
 		}
+		if cs.Immediate != "" && cs.Immediate != "revoked" && cs.Immediate != "error" {
+			c.Fail("", fmt.Sprintf("configured list (%s, %s, fetch_background, own CDP %q): a listed certificate presented right after Provision returned was %s", cs.Source, cs.Storage, cs.OwnCDP, cs.Immediate), cs)
+		}
 		for j, v := range cs.Verdicts {
 			if v == "accept" || v == "panic" || v == "hang" {
-				c.Fail("", fmt.Sprintf("certificate listed at position %d of %d (serial width %d, %s, %s, %s, mode %q, ocsp %s, own CDP %q) was %s", cs.Positions[j], cs.N, cs.Width, cs.Source, cs.Encoding, cs.Storage, cs.Mode, cs.OCSP, cs.OwnCDP, v), cs)
+				c.Fail("", fmt.Sprintf("certificate listed at position %d of %d (serial width %d, %s, %s, %s, mode %q, ocsp %s, own CDP %q, issuer name shape %q) was %s", cs.Positions[j], cs.N, cs.Width, cs.Source, cs.Encoding, cs.Storage, cs.Mode, cs.OCSP, cs.OwnCDP, cs.Issuer, v), cs)
 			}
 		}
 		c.Count("own_cdp=" + cs.OwnCDP)
-		c.Nontrivial(fmt.Sprintf("%s|%s|%d|%d|%s|%s|%s|%v|%v|%s", cs.Source, cs.Encoding, cs.N, cs.Width, cs.Storage, cs.Mode, cs.OCSP, cs.EntryExt, cs.V1, cs.OwnCDP))
+		c.Nontrivial(fmt.Sprintf("%s|%s|%d|%d|%s|%s|%s|%v|%v|%s|%s", cs.Source, cs.Encoding, cs.N, cs.Width, cs.Storage, cs.Mode, cs.OCSP, cs.EntryExt, cs.V1, cs.OwnCDP, cs.Issuer))
 		if k%23 == 0 {
 			c.Sample(cs)
 		}
@@ -139,6 +154,9 @@ func runC01(c *Ctx) {
 func c01Run(c *Ctx, k int, cs *c01Case, r *rand.Rand) {
 	w := NewWorld(c, fmt.Sprintf("c01_%d", k))
 	defer w.Close()
+	if cs.Issuer != "" {
+		w.CA = newCert(w.Root, CAOpts{Name: pkix.Name{CommonName: "shape " + cs.Issuer}, RawSubject: issuerShape(cs.Issuer)})
+	}
 	// entries
 	var es []EntryOpts
 	seen := map[string]bool{}
@@ -229,13 +247,28 @@ func c01Run(c *Ctx, k int, cs *c01Case, r *rand.Rand) {
 		w.Org.ServeOCSP("/ocsp", w.CA, func(int) OCSPBehaviour { return OCSPHTTP500 }, nil)
 		ocspURL = []string{w.Org.URL("/ocsp")}
 	}
-	if err := w.Provision(); err != nil {
-		cs.Err = err.Error()
-		return
-	}
 	mk := func(name string, serial *big.Int) {
 		w.Certs[name] = w.CA.IssueLeaf(LeafOpts{CN: name, Serial: serial, CDP: cdp, OCSP: ocspURL})
 		w.CertSp[name] = CertSpec{}
+	}
+	if cs.Source != "cdp" && k%2 == 1 {
+		// configured list, background fetch mode: the list is in force when Provision returns, so a listed certificate
+		// presented at that very moment is rejected (no waiting for the ticker goroutine's start-up pass)
+		cs.Fetch = "fetch_background"
+		w.Cfg.FetchMode = "fetch_background"
+		w.Cfg.WorkDir = w.Dir
+		v, err := NewValidator(w.Cfg)
+		if err != nil {
+			cs.Err = err.Error()
+			return
+		}
+		w.V = v
+		mk("immediate", es[0].Serial)
+		cs.Immediate = classify(w.V.Verify(w.chainFor("immediate")...))
+		w.settle()
+	} else if err := w.Provision(); err != nil {
+		cs.Err = err.Error()
+		return
 	}
 	unl := new(big.Int).Lsh(big.NewInt(1), 170) // never generated: wider than 20 bytes
 	mk("control", unl)
@@ -250,4 +283,30 @@ func c01Run(c *Ctx, k int, cs *c01Case, r *rand.Rand) {
 		cs.Verdicts = append(cs.Verdicts, w.Do(hs(name)))
 	}
 	_ = strings.Join
+}
+
+// issuerShape builds a DER Name whose decode/re-encode round trip through crypto/x509/pkix is not the identity.
+func issuerShape(shape string) []byte {
+	atv := func(oid asn1.ObjectIdentifier, tag int, v string) pkix.AttributeTypeAndValue {
+		return pkix.AttributeTypeAndValue{Type: oid, Value: asn1.RawValue{Class: 0, Tag: tag, Bytes: []byte(v)}}
+	}
+	cn, o, cc := asn1.ObjectIdentifier{2, 5, 4, 3}, asn1.ObjectIdentifier{2, 5, 4, 10}, asn1.ObjectIdentifier{2, 5, 4, 6}
+	dc, email := asn1.ObjectIdentifier{0, 9, 2342, 19200300, 100, 1, 25}, asn1.ObjectIdentifier{1, 2, 840, 113549, 1, 9, 1}
+	set := func(a ...pkix.AttributeTypeAndValue) pkix.RelativeDistinguishedNameSET { return a }
+	var seq pkix.RDNSequence
+	switch shape {
+	case "cn-o-c":
+		seq = pkix.RDNSequence{set(atv(cn, 12, "Shape CA")), set(atv(o, 12, "Shape Org")), set(atv(cc, 19, "DE"))}
+	case "dc-dc-cn":
+		seq = pkix.RDNSequence{set(atv(dc, 22, "com")), set(atv(dc, 22, "example")), set(atv(cn, 12, "Shape CA"))}
+	case "email":
+		seq = pkix.RDNSequence{set(atv(cc, 19, "DE")), set(atv(cn, 12, "Shape CA")), set(atv(email, 22, "ca@example.com"))}
+	case "multi-valued":
+		seq = pkix.RDNSequence{set(atv(cc, 19, "DE")), set(atv(o, 12, "Shape Org"), atv(cn, 12, "Shape CA"))}
+	case "t61":
+		seq = pkix.RDNSequence{set(atv(cc, 19, "DE")), set(atv(cn, 20, "Shape CA"))}
+	}
+	b, err := asn1.Marshal(seq)
+	mustNoErr(err)
+	return b
 }
